@@ -1,7 +1,7 @@
 (** C03: unknown fields are skipped exactly; decoding data written for S into
     an evolved S' gives shared indexes their S-values and leaves the rest of the
     target alone. *)
-From Plenc Require Import Base Varint Wire VarintProofs WireProofs JsonAny Codec SizeProofs DecBase RoundTripBase RoundTrip.
+From Plenc Require Import Base Varint Wire VarintProofs WireProofs JsonAny Codec SizeProofs DecBase RoundTripBase JsonProofs JsonRoundTrip RoundTrip.
 Open Scope N_scope.
 
 (** Skip over the payload of a tagged field of any codec of the fragment
@@ -57,6 +57,12 @@ Proof.
       * rewrite len_app. reflexivity.
       * rewrite Forall_forall in *. intros b Hb. apply in_map_iff in Hb. destruct Hb as (x & <- & Hx). apply (Hfe x Hx).
       * rewrite map_length. exact Hcnt.
+    + (* JSON object *)
+      cbn [wfv] in Hw. destruct v as [| | | | | | | | | | |nm j|]; try contradiction. destruct j as [| | | | | |l|]; try contradiction.
+      cbn [fits] in Hf. cbn [enc app wire]. apply skip_json_map. exact Hf.
+    + (* JSON array *)
+      cbn [wfv] in Hw. destruct v as [| | | | | | | | | | |nm j|]; try contradiction. destruct j as [| | | | |l| |]; try contradiction.
+      cbn [fits] in Hf. cbn [enc app wire]. apply skip_json_arr. exact Hf.
 Qed.
 
 Lemma find_field_none : forall fs idx,
@@ -198,10 +204,17 @@ Section Evolve.
     pose proof (find_none _ _ H g Hin) as Hn. cbn in Hn. rewrite Hg, Z.eqb_refl in Hn. discriminate.
   Qed.
 
+  (** the reading field has the codec of the written one - or the written one is
+      the protobuf repeated form of a slice and the reading one the default
+      (counted) codec for the same element type: a default-mode instance reads
+      the repeated form (C12) *)
+  Definition same_or_default_reads (cw cr : codec) : Prop :=
+    cr = cw \/ exists c', cw = CSliceProto c' /\ cr = CSliceLen c'.
+
   (** C03: the decode loop of S' over the field encodings of S *)
   Theorem evolution_loop : forall (l : list (fld codec)) vs cur more consumed fuel,
     Forall (fun f => rt_ok (f_codec f) /\ (0 <= f_index f < 2305843009213693952)%Z
-                     /\ (forall g, partner f = Some g -> f_codec g = f_codec f)) l ->
+                     /\ (forall g, partner f = Some g -> same_or_default_reads (f_codec f) (f_codec g))) l ->
     Forall (fun f => (omit (f_codec f) (slot vs (f_slot f)) = true \/ wfv (f_codec f) (slot vs (f_slot f)))
                      /\ fits (f_codec f) (slot vs (f_slot f))) l ->
     (length (flat_map (fenc vs) l ++ more) < fuel)%nat ->
@@ -221,14 +234,27 @@ Section Evolve.
         { cbn [flat_map] in Hfuel. unfold fenc at 1 in Hfuel. cbv zeta in Hfuel. rewrite Eo in Hfuel. rewrite <- app_assoc in Hfuel. exact Hfuel. }
         rewrite <- app_assoc.
         destruct (partner f) as [g|] eqn:Ep.
-        * destruct (partner_spec f g Ep) as [Hing Hig]. specialize (Hsame g eq_refl).
-          pose proof (proj2 (roundtrip_gen (f_codec f) Hok) fs' g (slot vs (f_slot f)) cur (flat_map (fenc vs) r ++ more) consumed fuel
-                        Hnd' Hing Hsame) as FS.
-          rewrite Hig in FS. unfold stbl in FS. fold tbl' in FS.
-          rewrite FS; auto.
-          rewrite IH; auto.
-          -- rewrite len_app, N.add_assoc. reflexivity.
-          -- rewrite app_length in Hfuel'. lia.
+        * destruct (partner_spec f g Ep) as [Hing Hig]. destruct (Hsame g eq_refl) as [Hsame'|(c' & Hcw & Hcr)].
+          -- pose proof (proj2 (roundtrip_gen (f_codec f) Hok) fs' g (slot vs (f_slot f)) cur (flat_map (fenc vs) r ++ more) consumed fuel
+                          Hnd' Hing Hsame') as FS.
+             rewrite Hig in FS. unfold stbl in FS. fold tbl' in FS.
+             rewrite FS; auto.
+             rewrite IH; auto.
+             ++ rewrite len_app, N.add_assoc. reflexivity.
+             ++ rewrite app_length in Hfuel'. lia.
+          -- (* written in the repeated form, read by the default codec *)
+             rewrite Hcw in *. cbn [rt_ok] in Hok. destruct Hok as (Hokc & Hwc & Htc).
+             cbn [wfv] in Hw. destruct (slot vs (f_slot f)) as [ | | | | | | | | |l| | |] eqn:Esl; try contradiction.
+             cbn [fits slice_elems] in Hfit. cbn [omit] in Eo. cbn [enc slice_elems] in *.
+             assert (Hall : Forall (fun x => wfv c' x /\ fits c' x) l).
+             { rewrite Forall_forall in *. intros x Hx. split; [apply Hw|apply Hfit]; exact Hx. }
+             pose proof (field_step_default_reads_repeated fs' Hnd' g c' l cur (flat_map (fenc vs) r ++ more) consumed fuel
+                           Hing Hcr Hokc Htc Hwc (roundtrip c' Hokc Htc)) as FS.
+             rewrite Hig in FS. fold tbl' in FS. rewrite FS; auto.
+             rewrite IH; auto.
+             ++ rewrite len_app, N.add_assoc. f_equal.
+                destruct l as [|x0 l0]; [discriminate Eo|]. reflexivity.
+             ++ rewrite app_length in Hfuel'. lia.
         * rewrite (unknown_field_step_gen (f_codec f) (f_index f) (slot vs (f_slot f)) cur (flat_map (fenc vs) r ++ more) consumed fuel Hok Hidx Hw Hfit (partner_none f Ep) Hfuel').
           rewrite IH; auto.
           -- rewrite len_app, N.add_assoc. reflexivity.
@@ -242,7 +268,7 @@ End Evolve.
 Theorem evolution : forall nm n fs nm' n' fs' vs prior,
   NoDup (map (fun f => f_index f) fs') ->
   Forall (fun f => rt_ok (f_codec f) /\ (0 <= f_index f < 2305843009213693952)%Z
-                   /\ (forall g, partner fs' f = Some g -> f_codec g = f_codec f)) fs ->
+                   /\ (forall g, partner fs' f = Some g -> same_or_default_reads (f_codec f) (f_codec g))) fs ->
   Forall (fun f => (omit (f_codec f) (slot vs (f_slot f)) = true \/ wfv (f_codec f) (slot vs (f_slot f)))
                    /\ fits (f_codec f) (slot vs (f_slot f))) fs ->
   dec (CStruct nm' n' fs') (enc (CStruct nm n fs) (VStruct vs) []) WTLength prior
